@@ -167,6 +167,7 @@ class ScriptRig:
         self.on_data = None  # callback(frame tuple) when the host writes a DATA frame
         self.on_frame = None  # callback(frame tuple) for every host frame
         self.transport = SimTransport(self.loop, self._host_write, log=self.log)
+        self.transport.on_mutated = lambda snap, now, _m=self.mon: _m._v("C03.tx", "buffer-mutated-after-write", f"the object handed to transport.write() ({snap.hex()}) was changed afterwards (now {now.hex()}): a transport that has not drained yet would put the new content on the wire")
         self.n2h = Pipe(self.loop, "n2h", sink=self._to_host)
         self.transport.attach(self.proto)
 
